@@ -1,18 +1,53 @@
 (* C02 - Loss recovery: any loss leaving k symbols per block still delivers the object. *)
-From FluteV Require Import Model.ObjRecv Model.Recv Spec.RecvSpec Spec.SessionSpec Proofs.RecvProofs Proofs.SessionProofs.
+From FluteV Require Import Model.ObjRecv Model.Recv Spec.RecvSpec Spec.SessionSpec Proofs.RecvProofs Proofs.SessionProofs Proofs.C02Full.
 Open Scope N_scope.
 
-(* Full statement (kept visible): for every order-preserving sub-multiset of a session's genuine
-   packets that contains a complete FDT instance listing the object and, per source block, k
-   distinct symbols (Reed-Solomon) or all k source symbols (other schemes) - blocks_recoverable -
-   the object is completed byte-exact (P_C02_object), under the stated premises: writers do not
-   fail, no receiver drop/cleanup in between, genuine FDT, default cache limit.  Evaluated on every
-   run (every subset of small sessions, sampled loss/duplication of larger ones, all schemes);
-   proved so far through the data-plane mechanisms below (partial). *)
-Definition C02_recoverable_delivers_full : Prop :=
-  forall (recoverable : bool) (content : list N) (ws : list wrec),
-    (* ws = the writers of the object after pushing such a sub-multiset *) True ->
-    P_C02_object recoverable content ws = true.
+(* Object-level statement, proved for the No-Code scheme without content encoding (Proofs/C02Full.v).
+   A fresh object receiver for [toi] (or_new) has the FDT entry of the object attached (or_attach, from
+   ctx0: OTI [oti], transfer length L = |content| > 0, MD5 [md5], cenc null) and is then fed [pkts] in
+   order (receive = fold of or_push).  Premises:
+   - nocode_ok: ro_fec = FNoCode, E > 0, B > 0, L > 0, L + E < 2^64 (no u64 overflow in block_length);
+   - the writer builder stores the object, open() and every write() succeed, the MD5 is absent or matches;
+   - L <= max_size_allocated (the receiver's buffer limit, default 10 MiB)  [memory_limit_refuted];
+   - the object has at most 4097 source blocks (window of 2 * MAX_PREALLOCATED_BLOCKS)  [block_window_refuted];
+   - every packet is genuine: payload id (sbn, esi) of a source symbol of the RFC 5052 partition, payload =
+     the content slice of that symbol (last symbol possibly short); ANY order, ANY duplication;
+   - a packet carrying the close-object flag arrives only once the packets up to and including it are
+     recoverable (trivial when no packet carries it; true for the in-order last packet)  [close_flag_early_refuted];
+   - recoverable = blocks_recoverable false 0 ks 0 (the (sbn, esi) that arrived): every source symbol of
+     every block occurs at least once.
+   Conclusion: the object is Completed; the log is exactly builder, open, writes whose concatenation is
+   [content], one complete (ShapeDone); hence complete_exact and P_C02_object hold for its writer.
+   Not covered here: Reed-Solomon / Raptor / RaptorQ (the decoders are oracles of the model), content
+   encodings, and the session level above or_attach (FDT reception, Model/Recv.v). *)
+Theorem C02_nocode_recoverable_delivers : forall E oti content toi max fid files inst md5 pkts,
+  let L := lenN_ content in
+  nocode_ok oti L -> fdt_entry_for files inst toi oti L md5 ->
+  writer_accepts E toi -> writes_succeed E toi -> md5_good E content md5 ->
+  L <= max -> nb_blocks_of oti L <= 4097 ->
+  Forall (fun p => genuine_pkt oti content p = true) pkts ->
+  close_flag_ok oti L pkts ->
+  recoverable oti L pkts = true ->
+  let (o, c) := receive E fid files inst toi max pkts in
+  r_state o = Completed
+  /\ ShapeDone content (toi, 0%nat) toi c
+  /\ forall m, complete_exact content (m, calls_of (toi, 0%nat) (c_log c)) = true
+                /\ P_C02_object (recoverable oti L pkts) content [(m, calls_of (toi, 0%nat) (c_log c))] = true.
+Proof. exact nocode_recoverable_delivers. Qed.
+Print Assumptions C02_nocode_recoverable_delivers.
+
+(* no packet carries the close-object flag (carousel / intermediate transfers): the flag premise holds *)
+Theorem C02_no_close_flag : forall oti L pkts,
+  Forall (fun p => a_close_obj p = false) pkts -> close_flag_ok oti L pkts.
+Proof. exact close_flag_ok_noflag. Qed.
+Print Assumptions C02_no_close_flag.
+
+(* the close-object flag on the last packet only, of a recoverable list (in-order last transfer, C01) *)
+Theorem C02_close_flag_on_last_packet : forall oti L pre p,
+  Forall (fun q => a_close_obj q = false) pre -> recoverable oti L (pre ++ [p]) = true ->
+  close_flag_ok oti L (pre ++ [p]).
+Proof. exact close_flag_ok_last. Qed.
+Print Assumptions C02_close_flag_on_last_packet.
 
 (* (1) a block is complete exactly when every source symbol is stored: concat_src succeeds iff all
    of ESI i .. i+n-1 are present *)
@@ -41,4 +76,22 @@ Example C02_example_premise :
   /\ blocks_recoverable false 0 [2; 1] 0 [(0,0); (1,0)] = false
   /\ blocks_recoverable true 1 [2; 1] 0 [(0,2); (0,1); (1,1)] = true
   /\ P_C02_object true [7] [] = false.
+Proof. vm_compute. repeat split. Qed.
+
+(* non-vacuity: a 5-byte object in 2 blocks (E = 2, B = 2, last symbol short), its packets shuffled and
+   duplicated: the premises hold, the theorem applies, and the model delivers [1;2;3;4] then [5] *)
+Example C02_example_delivery :
+  forallb (genuine_pkt ex_oti ex_content) ex_pkts = true
+  /\ recoverable ex_oti 5 ex_pkts = true
+  /\ map pid_of ex_pkts = [(1, 0); (0, 1); (1, 0); (0, 0); (0, 1)]
+  /\ summary 7 (receive env_ok 1 ex_files None 7 1000 ex_pkts)
+     = (Completed, [CallOpen true; CallWrite [1; 2; 3; 4] true; CallWrite [5] true; CallComplete]).
+Proof. vm_compute. repeat split. Qed.
+
+(* each guard of the theorem is needed: the same kind of genuine, recoverable reception fails when the
+   close-object flag arrives early, when the object exceeds max_size_allocated, when it has more than
+   4097 blocks and a far block arrives first (Proofs/C02Full.v) *)
+Example C02_guards_are_needed :
+  fst (summary 7 (receive env_ok 1 ex_files None 7 1000 ex_pkts_flag_first)) = Interrupted
+  /\ fst (summary 7 (receive env_ok 1 ex2_files None 7 3 ex2_pkts)) = Errored.
 Proof. vm_compute. repeat split. Qed.
